@@ -25,6 +25,7 @@ CONSTANTS
   FailSets <- MCFailNone
   Jumps <- MCJumpNone
   MaxJumps = 0
+  Bounded = TRUE
   Mut = "none"
 INVARIANT NoViolation
 VIEW View
